@@ -219,7 +219,7 @@ ADDED = {
            "reporting an unadvertised mode/fan, sensor / turbo flags reported the other way round on the same zone objects.",
     "C12": "Also: one callable in both AC subscriber sets, slow subscribers, API commands answered by the console, families of "
            "related events at depth 4-5 (error code / text with lost replies and a write fault; timers).",
-    "C13": "Also: the client transmits between segments, 1-299 s of silence between segments, streams with a damaged frame.",
+    "C13": "Also: the client transmits between segments, 1-299 s of silence between segments, streams with a damaged frame, and a subscriber that closes and re-opens the socket from inside the message callback before more frames arrive on the new connection.",
     "C14": "Also: silent console, accepted connection whose first write fails, link error loss, ten commands during the outage, a "
            "status volunteered mid-reaction, 700 s muted / silent phases and 1000 s of healthy idle time after every script, and "
            "the socket scenario of C07 explored under one clause (the last notification says connected and belongs to the live "
